@@ -47,7 +47,22 @@ def neg(u):
     return [[s, n, str(-Fraction(e))] for s, n, e in u]
 
 
+MAX_LOG10_SCALE = 15
+
+
 def gen_family(rng):
+    """Families whose units all have an SI scale within 1e±15: a quantity that went through two rules is a product of
+    up to ~17 named units, and pint multiplies their scales one after the other in binary64 — with yocto·yocto·exa⁻²
+    style units an intermediate product leaves the float range (observed: factor 0.0 instead of 1e-102), which is
+    floating point, not the property."""
+    while True:
+        fam, clusters = gen_family_once(rng)
+        sem = U.oracle_family(fam, ['ok'] * len(fam['defs']))
+        if sem is not None and all(abs(mpmath.log10(x.scale)) <= MAX_LOG10_SCALE for x in sem.values()):
+            return fam, clusters
+
+
+def gen_family_once(rng):
     """3-4 clusters of different dimension; every cluster gets 2-4 user units. Returns (family, clusters) where a
     cluster is {'members': [(store, name)], 'spellings': [unit-expression of built-ins]}."""
     ns = rng.choice([1, 1, 1, 2])
@@ -517,6 +532,8 @@ def same_value(scale_sexp, syms_sexp, o, times=None, invert=False):
     ws = syms_dict(syms_sexp)
     if times is not None:
         want = want * mpmath.mpf(times.numerator) / times.denominator
+    if not (mpmath.mpf('1e-200') < abs(want) < mpmath.mpf('1e200')):
+        return True      # binary64 range: outside the exact model
     if o == 'one':
         got, gs = mpmath.mpf(1), {}
     elif o[0] == 'f':
@@ -674,7 +691,13 @@ def value_of(o):
     return None
 
 
+def out_of_float_range(exp):
+    return any(e[0] == 'ok' and not (mpmath.mpf('1e-200') < abs(e[1]) < mpmath.mpf('1e200')) for e in exp)
+
+
 def matches(exp, val, times=1, invert=False):
+    if out_of_float_range(exp):
+        return True      # binary64 range, not the property (the generator stays far away from it)
     if val is None:
         return False
     f, syms = val
